@@ -149,13 +149,15 @@ where
     let tri = dt.as_triangulation();
     out.obs("tri_is_valid", &verdict(catch(|| tri.is_valid())));
     out.obs("tri_validate", &verdict(catch(|| tri.validate())));
+    // cumulative validation and the diagnostic report are defined for ANY complex: "the report is
+    // empty exactly when cumulative validation passes" is compared on corrupted ones too
+    out.obs("dt_validate", &verdict(catch(|| dt.validate())));
+    out.obs("report", &verdict(catch(|| dt.validation_report().map_err(|r| {
+        let kinds: Vec<String> = r.violations.iter().map(|v| format!("{:?}", v.kind)).collect();
+        kinds.join("+")
+    }))));
     if l4 {
         out.obs("dt_is_valid", &verdict(catch(|| dt.is_valid())));
-        out.obs("dt_validate", &verdict(catch(|| dt.validate())));
-        out.obs("report", &verdict(catch(|| dt.validation_report().map_err(|r| {
-            let kinds: Vec<String> = r.violations.iter().map(|v| format!("{:?}", v.kind)).collect();
-            kinds.join("+")
-        }))));
         out.obs("via_flips", &verdict(catch(|| dt.is_delaunay_via_flips())));
         out.obs(
             "violations",
